@@ -17,9 +17,10 @@ type subscriptionID uint
 type Subscription[T any] struct {
 	id subscriptionID
 
-	mu    sync.Mutex
-	topic *Topic[T]
-	ch    <-chan T
+	mu      sync.Mutex
+	topic   *Topic[T]
+	ch      <-chan T
+	closing chan struct{} // closed by Close, releases a Publish blocked on this subscriber
 }
 
 // Channel returns the chan that can be used to receive values from this
@@ -56,6 +57,8 @@ func (s *Subscription[T]) Close() {
 		return // already closed
 	}
 
+	// A concurrent Publish may hold the Topic mutex while blocked sending to us.
+	close(s.closing)
 	s.topic.unsubscribeID(s.id)
 	s.ch = nil
 	s.topic = nil
